@@ -86,6 +86,19 @@ FAMILY_NAMES = ["MacGeneral", "MacBadAccessKern", "MacBadAccessArm", "MacBadAcce
                 "WindowsUnknown", "Unknown"]
 
 
+# the dispatch consults these tables one after the other; the values they share TODAY (pinned; the same lists are the Coq theorem
+# c14_dispatch_overlaps_documented): a new enumeration value that shadows a later table is judged by what was documented before it
+LATER_TABLES = {"ExceptionCodeWindows": ("WinErrorWindows", "NtStatusWindows"), "WinErrorWindows": ("NtStatusWindows",),
+                "ExceptionCodeMacBadAccessKernType": ("ExceptionCodeMacBadAccessArmType", "ExceptionCodeMacBadAccessPpcType",
+                                                      "ExceptionCodeMacBadAccessX86Type")}
+DOCUMENTED_SHARED = {
+    ("ExceptionCodeWindows", "NtStatusWindows"): {
+        2147483649, 2147483650, 2147483651, 2147483652, 3221225477, 3221225478, 3221225480, 3221225501, 3221225509, 3221225510, 3221225612,
+        3221225613, 3221225614, 3221225615, 3221225616, 3221225617, 3221225618, 3221225619, 3221225620, 3221225621, 3221225622, 3221225725,
+        3221225876},
+    ("WinErrorWindows", "NtStatusWindows"): {0, 1, 2, 3, 63, 128, 191, 192, 255, 259, 266, 267, 275, 276, 277, 278, 288, 298, 299, 300, 301, 302,
+                                              303, 304, 514, 534},
+}
 ASCII_WS = b" \t\n\x0c\r"       # u8::is_ascii_whitespace (no vertical tab)
 
 
@@ -752,7 +765,19 @@ class C14(PropBase):
         en = load_enums()
         e = c.exc
         code, flags, np, i0, i1, i2 = e["code"], e["flags"], e["np"], e["i0"], e["i1"], e["i2"]
-        isin = lambda name, v: v in en[name]
+
+        def isin(name, v):
+            """membership as DOCUMENTED: a value the checkout's table `name` shares with a table the dispatch consults later, but which
+            is not among the documented shared values (DOCUMENTED_SHARED), is a value the later table owns"""
+            if v not in en[name]:
+                return False
+            for later in LATER_TABLES.get(name, ()):
+                if v in en[later] and v not in DOCUMENTED_SHARED.get((name, later), ()):
+                    return False
+            if name in ("ExceptionCodeWindows", "WinErrorWindows", "NtStatusWindows") and v & 0xf0000000 and \
+                    ((v & 0x0fff0000) >> 16) in en["WinErrorFacilityWindows"] and (v & 0xffff) in en["WinErrorWindows"]:
+                return False          # no documented value of these tables is a facility / winerror.h composite
+            return True
         hx = lambda v: "0x%08x" % v
         osc = os_class(c.platform)
         if osc == OS_WIN:
